@@ -88,4 +88,15 @@ CHECKS = {
    text='For each rendered SDF file (entry order, CELL grouping incl. repeated blocks per instance and several anonymous blocks, edge qualifiers, one/two value lists, empty and partial triples, escaped names, both branchforks settings) '
         'the literals become symbolic reals and z3 proves for all values that every entry of both delay arrays equals the ground truth [dataset, line feeding the pin, in-polarity, out-polarity] and all other entries are 0.',
    note='The text dimension is enumerated (2 circuits x 30 groupings x k seeds). One INTERCONNECT entry is symbolic per exploration (the all-zero test forks on value order); IOPATH values are symbolic in all. Renderer/ground truth trusted.'),
+ 'C09': dict(engine='E2-symx (choice exploration)', category='exploration', design_ref='DESIGN.md §5 C09, §7',
+   technique='bounded exhaustive exploration of edit histories with the forking symbolic-execution engine: operations/operands are choice integers, explicit pin numbers symbolic ints constrained to free positions and concretised by z3',
+   text='All edit histories of length 4 (quick) / 5 (thorough) from the empty circuit over ten public operations (<= 4 live nodes; or a small bench-built netlist followed by removing/rewiring operations), with the full '
+        'consistency invariant of the statement asserted on the real objects after every step. Exhaustive within the bound - structure cannot stay symbolic in object-graph code, so the solver only decides pin feasibility.',
+   note='Histories longer than the bound and more live nodes are outside the claim. Well-formed use as stated (free explicit pins; fork output pins gap-free; one substitution per instance name).'),
+ 'C17': dict(engine='E2-symx (choice exploration)', category='exploration', design_ref='DESIGN.md §5 C17, §7',
+   technique='bounded exhaustive exploration of circuit graphs and origin sets with the forking engine; bus index values as symbolic integers concretised by z3 under distinctness constraints; independent definitions of the traversal semantics',
+   text='Every graph with <= 3 nodes over seven kinds and every 4-node graph over four kinds (quick; <= 5 nodes over all kinds thorough) with any pin optionally unconnected, plus the corpus circuits: completeness, '
+        'driver-before-reader order cut at state elements, longest-path levels, line order, mirrored reverse order, fan-in sandwich (combinational-path set <= yielded <= any-path set, equality for combinational circuits); '
+        'prefix lookups ordered LSB to MSB for bracket / underscore / plain index styles, gaps, two dimensions.',
+   note='Exhaustive within the bound only. Known finding: fanin() omits state elements that feed the cone through an intermediate node.'),
 }
